@@ -6,6 +6,7 @@ import (
 	"bytes"
 	"fmt"
 	"math/big"
+	"sort"
 
 	"github.com/intuitivelabs/sipsp"
 	"pgregory.net/rapid"
@@ -29,6 +30,7 @@ type CaseNA struct {
 	CtCap  int       `json:"ct_cap"`
 	ExpHdr int64     `json:"exp_hdr"` // value of an Expires header; -1 = none
 	Compct bool      `json:"compact"` // compact header name
+	Sched  []int     `json:"sched"`   // "headers" entry: feed the block in these chunks (the decomposition must not depend on it)
 }
 
 // refNA is the expected decomposition of one value.
@@ -385,9 +387,19 @@ func evalNA(c CaseNA) Result {
 	hl.Hdrs = make([]sipsp.Hdr, 40)
 	var pv sipsp.PHdrVals
 	pv.Init(mkContacts(c.CtCap))
-	o, e := sipsp.ParseHeaders(buf, 0, &hl, &pv)
+	o := 0
+	var e sipsp.ErrorHdr
+	for _, cpos := range normSchedule(c.Sched, len(buf)) {
+		o, e = sipsp.ParseHeaders(buf[:cpos:cpos], o, &hl, &pv)
+		if e != sipsp.ErrHdrMoreBytes {
+			break
+		}
+	}
+	if len(c.Sched) > 0 {
+		classes = append(classes, "chunked")
+	}
 	if e != 0 || o != len(buf) {
-		return fail("ParseHeaders = (%d, %v), want (%d, no error)", o, e, len(buf))
+		return fail("ParseHeaders (chunks %v) = (%d, %v), want (%d, no error)", c.Sched, o, e, len(buf))
 	}
 	switch ht {
 	case sipsp.HdrFrom:
@@ -579,6 +591,13 @@ func genCaseNA(t *rapid.T) CaseNA {
 		c.ExpHdr = int64(rapid.Uint32().Draw(t, "exphdrv"))
 	}
 	c.Compct = rapid.Bool().Draw(t, "compact")
+	if c.Entry == "headers" && rapid.Bool().Draw(t, "chunked") {
+		n := rapid.IntRange(1, 4).Draw(t, "ncuts")
+		for i := 0; i < n; i++ {
+			c.Sched = append(c.Sched, rapid.IntRange(1, 400).Draw(t, "cut"))
+		}
+		sort.Ints(c.Sched)
+	}
 	return c
 }
 
